@@ -52,6 +52,10 @@ func registerMath() {
 			if c, ok := a[0].(float64); ok {
 				return fn(c)
 			}
+			// rounding functions are exact in the FP theory
+			if mode, isRound := map[string]int{"Round": 0, "RoundToEven": 1, "Trunc": 2, "Ceil": 3, "Floor": 4}[name]; isRound {
+				return fromTerm(m.F().FPRound(a[0].(*Sym).T, mode), true)
+			}
 			return fromTerm(m.F().UF("math_"+name, smt.F64, a[0].(*Sym).T), true)
 		}
 	}
